@@ -39,15 +39,22 @@ Definition composes (o : op) : bool :=
   match o with
   | OpTree e => Nat.leb 2 (itree_leaves e)
   | OpResolve s => Nat.leb 2 (length s)
+  | OpSum l => Nat.leb 2 (length l)
   | _ => false
   end.
+Definition ent_nonempty (e : str * rent nat) : bool :=
+  match snd e with RCall d => Nat.ltb 0 (def_size d) | RSeq ds => existsb (fun d => Nat.ltb 0 (def_size d)) ds | RObj _ => false end.
 
-Definition hist_case := (fmt * list pdef * pdef * pdef * list rule * list op * outcome result)%type.
+(* format, operand pipelines, resolver table (identifier -> operand index | definition of a callable
+   or YAML file), backend pipeline, output-format pipeline, rules, history, implementation's result *)
+Definition hist_case := (fmt * list pdef * list (str * rent nat) * pdef * pdef * list rule * list op * outcome result)%type.
 Definition judge_hist (c : hist_case) : N :=
-  let '(f, defs, bkd, outd, rules, prog, impl) := c in
-  let m := mexec f defs bkd outd rules prog in
-  let a := aexec f (map adef defs) (fst (fst (adef bkd))) (fst (fst (adef outd))) rules prog in
+  let '(f, defs, tn, bkd, outd, rules, prog, impl) := c in
+  let m := mexec f defs tn bkd outd rules prog in
+  let a := aexec f (map adef defs) tn (apipe_of bkd) (apipe_of outd) rules prog in
   bits (outcome_cmp (result_cmp dict_eqb) (fst m) impl)
        (outcome_cmp (result_cmp dict_sim) a impl)
        (snd m)
-       (existsb composes prog && Nat.leb 2 (length (filter (fun d => Nat.ltb 0 (def_size d)) (defs ++ [bkd; outd])))).
+       (existsb composes prog &&
+        Nat.leb 2 (length (filter (fun d => Nat.ltb 0 (def_size d)) (defs ++ [bkd; outd]))
+                   + length (filter ent_nonempty tn))).
